@@ -446,7 +446,10 @@ struct World : CallbackSink
 	{
 		World * w;
 		template <typename A0, typename ...A>
-		bool operator() (A0 && a0, A && ...a) const { ArgPack p; packArgs(p, a0, a...); return w->onPred(&p); }
+		// behaves like a predicate that takes its parameters by value: whatever arrives as an rvalue is consumed (moved from) after it was
+		// looked at.  Harmless when the library hands the predicate its own copy, visible at the dispatch / peek / take of that event if
+		// the library handed out the queued object itself.
+		bool operator() (A0 && a0, A && ...a) const { ArgPack p; packArgs(p, a0, a...); const bool r = w->onPred(&p); consumeRvalues(std::forward<A0>(a0), std::forward<A>(a)...); return r; }
 	};
 	struct PredNoArgs
 	{
